@@ -1,8 +1,58 @@
 // C12: targets and load wrappers for the composite types
 #ifndef VERIF_C12_LOAD_BIG_H
 #define VERIF_C12_LOAD_BIG_H
+
+#include "c11_big.h"
+
 namespace c12big
 {
-inline bool dispatch(const std::string &, c11::splitmix &, const std::string &) { return false; }
+using namespace c11;
+
+inline bool dispatch(const std::string &type, splitmix &r, const std::string &bytes)
+{
+  if (type == "imep")
+  {
+    i_mep x(make_imep(r, false));
+    (void)x.signature();      // the cached signature is part of the target's state
+    std::cout << run_load(x, bytes, [](i_mep &y, std::istream &in) { return y.load(in, M().prob.sset); },
+                          [](const i_mep &y) { return snap(y); }, [](const i_mep &y) { return enc(y); })
+              << "\n";
+    return true;
+  }
+  if (type == "team")
+  {
+    team<i_mep> x(make_team(r));
+    (void)x.signature();
+    std::cout << run_load(x, bytes, [](team<i_mep> &y, std::istream &in) { return y.load(in, M().prob.sset); },
+                          [](const team<i_mep> &y) { return snap(y); },
+                          [](const team<i_mep> &y) { return enc(y); })
+              << "\n";
+    return true;
+  }
+  if (type == "pop")
+  {
+    population<i_mep> x(make_pop(r));
+    for (unsigned l(0); l < x.layers(); ++l)
+      for (unsigned i(0); i < x.individuals(l); ++i) (void)x[{l, i}].signature();
+    std::cout << run_load(x, bytes, [](population<i_mep> &y, std::istream &in) { return y.load(in, M().prob); },
+                          [](const population<i_mep> &y) { return snap(y); },
+                          [](const population<i_mep> &y) { return enc(y); })
+              << "\n";
+    return true;
+  }
+  if (type == "summ")
+  {
+    summary<i_mep> x(make_summ(r));
+    if (!x.best.solution.empty()) (void)x.best.solution.signature();
+    // give the analyzer some content: load() replaces the whole object
+    x.az.add(make_imep(r, false, 8), make_fit(r, false), 0);
+    std::cout << run_load(x, bytes, [](summary<i_mep> &y, std::istream &in) { return y.load(in, M().prob); },
+                          [](const summary<i_mep> &y) { return snap(y); },
+                          [](const summary<i_mep> &y) { return enc(y); })
+              << "\n";
+    return true;
+  }
+  return false;
 }
+}  // namespace c12big
 #endif
